@@ -77,9 +77,56 @@ fn shapes(rng: &mut Rng, big: usize) -> Vec<(&'static str, Vec<u32>, Vec<u32>)> 
     v
 }
 
+/// near-identical inputs of tens of thousands of items ("near-linear work regardless of their
+/// length"): two edits at the far ends, a few scattered edits, a small block moved far away
+fn huge_shapes(rng: &mut Rng) -> Vec<(&'static str, Vec<u32>, Vec<u32>)> {
+    let mut v = vec![];
+    let n = rng.range(20000, 40000);
+    let a: Vec<u32> = (0..n as u32).collect();
+    let mut b = a.clone();
+    b[1] = 900_001;
+    b[n - 2] = 900_002;
+    v.push(("huge_two_far_edits", a.clone(), b));
+    let mut b = a.clone();
+    for k in 0..4 {
+        let p = rng.below(n);
+        b[p] = 900_010 + k;
+    }
+    v.push(("huge_scattered_edits", a.clone(), b));
+    let mut b = a.clone();
+    let blk: Vec<u32> = b.drain(100..110).collect();
+    let p = n - 200;
+    for (i, x) in blk.into_iter().enumerate() {
+        b.insert(p + i, x);
+    }
+    v.push(("huge_small_block_moved_far", a.clone(), b));
+    // the same over a small alphabet (no unique items: Patience hands everything to Myers)
+    let a: Vec<u32> = (0..n).map(|i| (i % 3) as u32).collect();
+    let mut b = a.clone();
+    b[1] = 7;
+    b[n - 2] = 8;
+    v.push(("huge_periodic_two_far_edits", a, b));
+    v
+}
+
 pub fn drive_c19(a: &Args, out: &mut Out) {
     let mut rng = Rng::new(a.num("seed", 1));
     let rounds = if a.thorough() { 40 } else { 6 };
+    for r in 0..(if a.thorough() { 4 } else { 1 }) {
+        let _ = r;
+        for (fam, x, y) in huge_shapes(&mut rng) {
+            for alg in [Algorithm::Myers, Algorithm::Patience] {
+                let case = out.next_case();
+                let o = rec::items(&x);
+                let n = rec::items(&y);
+                rec::reset_cmps();
+                let mut h = CountHook::default();
+                let ok = rec::guarded(|| diff_slices::<_, Item>(alg, &mut h, &o, &n)).is_some();
+                out.emit(&json!({"ev":"work","case":case,"alg":crate::fam_h::alg_name(alg),"family":fam,
+                    "n":x.len(),"m":y.len(),"d":h.d,"cmps":rec::cmps(),"panic":!ok,"has_seq":false,"old":[],"new":[]}));
+            }
+        }
+    }
     for r in 0..rounds {
         let big = if r % 3 == 0 { 3000 } else if r % 3 == 1 { 800 } else { 240 };
         for (fam, x, y) in shapes(&mut rng, big) {
